@@ -214,6 +214,10 @@ func init() {
 			ex.sched.preemptLeft = n
 			return nil
 		},
+		"vSchedBlockChoice": func(ex *Exec, fr *frame, a []value) value {
+			ex.sched.blockChoice = ex.truth(a[0])
+			return nil
+		},
 		"vMapOrderNondet": func(ex *Exec, fr *frame, a []value) value {
 			ex.mapNondet = ex.truth(a[0])
 			return nil
